@@ -6,7 +6,7 @@ import Mathlib.Tactic.FieldSimp
 import Mathlib.Tactic.Linarith
 import Mathlib.Tactic.Positivity
 import Mathlib.Algebra.Order.Field.Rat
-import Anything.Generated.Knobs
+import Anything.Generated.KnobsBuiltins
 /-!
 # C10 — rounding functions return the mathematically defined integer or decimal
 
@@ -340,6 +340,6 @@ example : RatNum.floor (-5 / 2) = -3 ∧ RatNum.ceil (-5 / 2) = -2 ∧ RatNum.ro
 run); the model's `FN_CALL` branch dispatches on the same names. -/
 theorem C10_builtin_table :
     Anything.Generated.Knobs.builtins =
-      [("sin", "sin"), ("cos", "cos"), ("round", "round"), ("floor", "floor"), ("ceil", "ceil")] := rfl
+      [("ceil", "ceil"), ("cos", "cos"), ("floor", "floor"), ("round", "round"), ("sin", "sin")] := rfl
 
 end Anything.Props.C10
